@@ -23,6 +23,7 @@ inductive ErrC where
   | badchar    -- InvalidChar
   | alloc      -- MemoryAllocationLayoutError
   | timestamp  -- TimestampOutOfRange
+  | wrongVersion -- WrongVersion
 deriving DecidableEq, Repr
 
 /-- places where the implementation can panic / produce an invalid value -/
